@@ -68,7 +68,7 @@ claim("C13", "other",
       "DESIGN.md 5/C13")
 
 claim("C14", "other",
-      "Decides token-class agreement (every verbatim class of the lexer — opening rune and terminator — has a copy-through state with the same terminator in the formatter), the shared space predicate and delimiter constants, and that directives are read only from leading comment tokens while all comment tokens are removed before parsing. Does not decide token-sequence equality under arbitrary re-layout. Added by mutation probing: the formatter's copy-through loops have no exit but the terminator and the end of the input, and the result is produced only after the main loop over the runes ended.",
+      "Decides token-class agreement (every verbatim class of the lexer — opening rune and terminator — has a copy-through state with the same terminator in the formatter), the shared space predicate and delimiter constants, and that directives are read only from leading comment tokens while all comment tokens are removed before parsing. Does not decide token-sequence equality under arbitrary re-layout. Added by mutation probing: the formatter's copy-through loops have no exit but the terminator and the end of the input, and the result is produced only after the main loop over the runes ended. Added after seeding wave 7: the copy-through state is entered for every occurrence of the opening rune, independent of the formatter's own state (previous token class, indentation).",
       "rune-comparison extraction from lexer closures and formatter loop states + edge-dominance facts",
       "DESIGN.md 5/C14")
 
@@ -98,6 +98,6 @@ claim("C06", "other",
       "DESIGN.md 5/C06")
 
 claim("C02", "other",
-      "C02 as a whole (value equality across 16 optimisation subsets for all programs and inputs) is NOT decided. Decided are structural necessary conditions of it: ReduceNesting only splices same-kind bool children and keeps every operand in order (R-FLATTEN); optimize runs exactly the enabled-or-absent passes (R-OPTGATE); the ;;;; directive parser and the Optimizations option write CompileOptions identically (R-DIREQ, sibling agreement); plus the per-pass conditions shared with C10 (fold only constants through approved stateless operators, only on success), C16 (reordering permutes and/or operands only, stably) and C01 (fast marking only for two-leaf operators). A change that breaks one of these breaks C02; a change that only alters which value a re-derived jump/stack table holds is out of reach. Added: R-OPRESOLVE — the parser consults Config.OperatorMap only when the built-in table has no entry, so the function folded at compile time is the function the node runs.",
+      "C02 as a whole (value equality across 16 optimisation subsets for all programs and inputs) is NOT decided. Decided are structural necessary conditions of it: ReduceNesting only splices same-kind bool children and keeps every operand in order (R-FLATTEN); optimize runs exactly the enabled-or-absent passes (R-OPTGATE); the ;;;; directive parser and the Optimizations option write CompileOptions identically (R-DIREQ, sibling agreement); plus the per-pass conditions shared with C10 (fold only constants through approved stateless operators, only on success), C16 (reordering permutes and/or operands only, stably) and C01 (fast marking only for two-leaf operators). A change that breaks one of these breaks C02; a change that only alters which value a re-derived jump/stack table holds is out of reach. Added: R-OPRESOLVE — the parser consults Config.OperatorMap only when the built-in table has no entry, so the function folded at compile time is the function the node runs. Added: the fast-operator arm of both evaluators (what FastEvaluation switches to) fetches each inlined operand itself with its own keys and passes them in order (R-CALLSITES, R-FASTORDER, R-STEPRES/R-STEPARGS, R-FASTLAYOUT, R-FASTPROXY).",
       "SSA loop-shape and gate rules on the optimizer passes + sibling agreement on option writers + re-run of the C10/C16/C01 pass rules",
       "DESIGN.md 5/C02")
